@@ -344,6 +344,9 @@ def install3(R):
     rc.raises = {"AnyError": dict(ensures=["crop_files_unchanged(self.location)"])}
 
     R.add(K + "Crop.reap_combos_to_ds", cls="Crop", result="V", props=["C12", "C09", "C06"],
+          hooks={"skip_call_pre": ("combo_runner_to_ds",)},
+          notes="the labelling preconditions of combo_runner_to_ds (normal-form description) are the caller's: reap_runner passes a Runner's "
+                "stored description with parse=False; with parse=True the inputs go through parse_*",
           requires=[("sown", "fs_exists(InfoPath(self.location))")],
           modifies=["ghost:FS", "ghost:calls", "self._all_nan_result", "self._num_results", "self._num_sown_batches",
                     "self.batchsize", "self.num_batches", "self._batch_remainder", "self.farmer", "self._fn"],
